@@ -2,93 +2,11 @@
 `register/quant.rs`: constructors, reset, set_num, collapse, probabilities, rescale, normalize, tensor product.
 (split out of GenRegs2.lean so that an equality that no longer holds blocks only the properties that rely on it)
 -/
-import Qvnt.Lemmas.GenPre
-
-set_option linter.unusedSectionVars false
-
-namespace Qvnt.Gen2
-open Qvnt Qvnt.Gen
-
-variable {R : Type}
-
-section basic
-variable [Zero R] [One R]
-
-theorem basisBuf_toList (len s : Nat) :
-    (QReg.basisBuf (R := R) len s).toList = (List.replicate len (0 : Cx R)).set s 1 := by
-  apply List.ext_getElem
-  · simp [QReg.basisBuf]
-  · intro i h1 h2
-    simp [QReg.basisBuf, List.getElem_set]
-    by_cases h : s = i <;> simp [h, eq_comm]
-
-theorem quant_new_eq (n : Nat) (h : n < 64) : quant_new (R := R) n = ofModel (QReg.new n) := by
-  simp [quant_new, ofModel, QReg.new, shl_one n h, mask_eq n h, basisBuf_toList, minBufferLen]
-
-theorem quant_reset_eq (r : QReg R) (i : Nat) : quant_reset (ofModel r) i = ofModel (r.reset i) := by
-  simp [quant_reset, ofModel, QReg.reset, basisBuf_toList]
-
-theorem quant_with_state_eq (n st : Nat) (h : n < 64) :
-    quant_with_state (R := R) n st = some (ofModel (QReg.withState n st)) := by
-  have hlt : st &&& (2 ^ n - 1) < max (2 ^ n) 8 := by
-    have : st &&& (2 ^ n - 1) ≤ 2 ^ n - 1 := Nat.and_le_right
-    have h3 : 0 < 2 ^ n := Nat.two_pow_pos n
-    omega
-  simp [quant_with_state, ofModel, QReg.withState, shl_one n h, mask_eq n h, basisBuf_toList, minBufferLen]
-  omega
-
-omit [One R] in
-theorem resizeBuf_toList (a : Array (Cx R)) (len : Nat) :
-    (QReg.resizeBuf a len).toList = Rs.resize a.toList len 0 := by
-  apply List.ext_getElem
-  · simp [QReg.resizeBuf, Rs.resize]; omega
-  · intro i h1 h2
-    simp [QReg.resizeBuf] at h1
-    simp only [QReg.resizeBuf, Rs.resize, Array.getElem_toList, Array.getElem_ofFn]
-    by_cases hi : i < a.size
-    · rw [List.getElem_append_left (by simp; omega)]
-      simp [Array.getD, hi]
-    · rw [List.getElem_append_right (by simp; omega)]
-      simp [Array.getD, hi]
-
-theorem quant_set_num_eq (r : QReg R) (n : Nat) (h : n < 64) :
-    quant_set_num (ofModel r) n = ofModel (r.setNum n) := by
-  unfold quant_set_num QReg.setNum
-  by_cases hs : n < r.qNum
-  · simp [hs, ofModel, shl_one n h, mask_eq n h, minBufferLen, quant_reset, QReg.reset,
-      basisBuf_toList, Rs.resize]
-    congr 2
-    simp [QReg.resizeBuf]; omega
-  · simp [hs, ofModel, shl_one n h, mask_eq n h, resizeBuf_toList, minBufferLen]
-
-omit [One R] in
-theorem quant_collapse_mask_eq (r : QReg R) (idy mask : Nat) :
-    quant_collapse_mask (ofModel r) idy mask = ofModel (r.collapseMask idy mask) := by
-  unfold quant_collapse_mask QReg.collapseMask ofModel
-  simp only [QRegG.mk.injEq, and_true]
-  apply List.ext_getElem
-  · simp [Rs.mapIdx, Rs.enumerate]
-  · intro i h1 h2
-    rw [mapIdx_getElem]
-    have hi : i < r.psi.size := by simpa [Rs.mapIdx, Rs.enumerate] using h1
-    simp [Array.getD]
-
-end basic
-
-section arith
-variable [Add R] [Sub R] [Mul R] [Div R] [Neg R] [Zero R] [One R] [Consts R]
-  [LE R] [DecidableLE R] [LT R] [DecidableLT R] [HasSqrt R] [RegConsts R]
-theorem quant_tensor_prod_eq (a b : QReg R) (ha : a.qNum + b.qNum < 64) :
-    quant_tensor_prod (ofModel a) (ofModel b) = ofModel (a.tensorProd b) := by
-  have h8 : a.qNum % 2 ^ 8 = a.qNum := Nat.mod_eq_of_lt (by omega)
-  unfold quant_tensor_prod QReg.tensorProd ofModel
-  simp only [shl_one _ ha, mask_eq _ ha, h8, QRegG.mk.injEq, and_true, minBufferLen]
-  apply List.ext_getElem
-  · simp [Rs.range]
-  · intro i h1 h2
-    simp only [Rs.range, List.getElem_map, List.getElem_range', Array.getElem_toList, Array.getElem_ofFn,
-      Array.getD_eq_getD_getElem?, List.getD_eq_getElem?_getD, Array.getElem?_toList]
-    simp
-
-end arith
-end Qvnt.Gen2
+import Qvnt.Lemmas.GenQuant.basisBuf_toList
+import Qvnt.Lemmas.GenQuant.quant_new_eq
+import Qvnt.Lemmas.GenQuant.quant_reset_eq
+import Qvnt.Lemmas.GenQuant.quant_with_state_eq
+import Qvnt.Lemmas.GenQuant.resizeBuf_toList
+import Qvnt.Lemmas.GenQuant.quant_set_num_eq
+import Qvnt.Lemmas.GenQuant.quant_collapse_mask_eq
+import Qvnt.Lemmas.GenQuant.quant_tensor_prod_eq
